@@ -7,6 +7,10 @@ Rules
         quantum: reciprocal factors, rounding mode recorded
   R9.3  defaults: an OptionalAttribute's declared default equals the schema default whenever the schema declares one
         (the setter removes the attribute on the default, so a reader applying schema defaults must see the same value)
+  R9.5  presence is not decided by truthiness: in value-selecting expressions (`a or b`, `a if a else b`,
+        `if not a: return b ... return a`) the tested value must be boolean, or its falsy value must equal the fall-back
+        ("" for strings, b"" for bytes), or it must be an object without __len__/__bool__; numeric, unknown and element
+        values are refused (0 / 0.0 / an element without children are valid values that would be replaced)
   R9.4  rejection type: explicit refusals in proxy-layer setters raise TypeError or ValueError only
 """
 
@@ -399,3 +403,97 @@ def run(ctx):
     ctx.count("setter_raise_sites", nr)
     if nr == 0:
         ctx.error("R9.4", "no raise in any proxy setter recognised")
+    r95(ctx, prog, M, T)
+
+
+# -- R9.5 ------------------------------------------------------------------------------------------------
+def _selection_patterns(fnode):
+    """(line, form, tested expr, fall-back expr) for value-selecting truthiness tests."""
+    def same(a, b):
+        return ast.dump(a) == ast.dump(b)
+
+    out = []
+    for n in ast.walk(fnode):
+        if isinstance(n, ast.BoolOp) and isinstance(n.op, ast.Or) and len(n.values) == 2:
+            out.append((n.lineno, "a or b", n.values[0], n.values[1]))
+        if isinstance(n, ast.IfExp):
+            if same(n.test, n.body):
+                out.append((n.lineno, "a if a else b", n.test, n.orelse))
+            elif isinstance(n.test, ast.UnaryOp) and isinstance(n.test.op, ast.Not) and same(n.test.operand, n.orelse):
+                out.append((n.lineno, "b if not a else a", n.orelse, n.body))
+        for fld in ("body", "orelse"):
+            b = getattr(n, fld, None)
+            if not (isinstance(b, list) and b and isinstance(b[0], ast.stmt)):
+                continue
+            for i, st in enumerate(b[:-1]):
+                if isinstance(st, ast.If) and not st.orelse and len(st.body) == 1 and isinstance(st.body[0], ast.Return) \
+                        and isinstance(b[i + 1], ast.Return) and st.body[0].value is not None and b[i + 1].value is not None:
+                    t, r1, r2 = st.test, st.body[0].value, b[i + 1].value
+                    if isinstance(t, ast.UnaryOp) and isinstance(t.op, ast.Not) and same(t.operand, r2):
+                        out.append((st.lineno, "if not a: return b; return a", t.operand, r1))
+                    elif same(t, r1):
+                        out.append((st.lineno, "if a: return a; return b", t, r2))
+    return out
+
+
+def _truthiness_verdict(prog, M, T, fc, tested, fallback):
+    """None if harmless, else the reason the selection can replace a valid value."""
+    t = T.expr(tested, fc)
+    if not t:
+        return "the type of `%s` is unknown: a valid falsy value (0, 0.0, '') would be replaced by the fall-back" % ast.unparse(tested)
+    fb = prog.const(fallback, fc.fn.module) if isinstance(fallback, ast.Constant) else Ellipsis
+    for a in t:
+        if a[0] == "prim":
+            if a[1] in ("bool", "NoneType"):
+                continue
+            if a[1] == "str" and fb == "":
+                continue
+            if a[1] == "bytes" and fb == b"":
+                continue
+            if a[1] in ("int", "float") and fb in (0, 0.0) and fb is not False and fb is not Ellipsis:
+                continue
+            return "`%s` can be a %s; its falsy value is a valid value and differs from the fall-back `%s`" % (
+                ast.unparse(tested), a[1], ast.unparse(fallback))
+        elif a[0] == "inst":
+            c = a[1]
+            if M.is_oxml_class(c):
+                return "`%s` can be an element (<%s>): an element without children is falsy" % (ast.unparse(tested), c.name)
+            if prog.lookup(c, "__len__") is not None or prog.lookup(c, "__bool__") is not None:
+                if any(k.name in ("int", "float", "Length", "str") for k in prog.mro(c) if hasattr(k, "name")) or True:
+                    return "`%s` can be a %s, which defines __len__/__bool__" % (ast.unparse(tested), c.name)
+            ext = [b for b in prog.ext_bases(c)] if hasattr(prog, "ext_bases") else []
+            if any(str(b).split(".")[-1] in ("int", "float", "str", "list", "dict", "tuple", "Sequence", "Mapping") for b in ext):
+                return "`%s` can be a %s (a %s subtype): its zero/empty value is falsy" % (ast.unparse(tested), c.name, ext[0])
+        elif a[0] in ("lxml",):
+            return "`%s` can be an lxml element: an element without children is falsy" % ast.unparse(tested)
+        elif a[0] == "ext":
+            if "NoneType" in str(a[1]):
+                continue
+            continue  # foreign objects (PIL, xlsxwriter ...): not document values
+        elif a[0] in ("list", "tuple", "dict"):
+            return "`%s` can be an empty %s" % (ast.unparse(tested), a[0])
+        elif a[0] in ("enum", "member"):
+            return "`%s` can be an enumeration member whose value may be 0" % ast.unparse(tested)
+    return None
+
+
+def r95(ctx, prog, M, T):
+    ctx.rule("R9.5", "presence of a value is not decided by its truthiness where a falsy value is valid")
+    n = 0
+    for f in prog.all_functions():
+        if f.module.name.startswith(("pptx.compat",)):
+            continue
+        fc = FCtx(f)
+        for line, form, tested, fallback in _selection_patterns(f.node):
+            tt = T.expr(tested, fc)
+            # pure boolean algebra (`a < 0 or a > 9`) is not a value selection
+            if isinstance(tested, (ast.Compare, ast.UnaryOp)) or (isinstance(tested, ast.Call) and dotted(tested.func) in ("isinstance", "callable", "hasattr")):
+                continue
+            n += 1
+            key = "%s:%s" % (f.qualname, ast.unparse(tested)[:40])
+            why = _truthiness_verdict(prog, M, T, fc, tested, fallback)
+            if why is None:
+                ctx.ok("R9.5", key, sample={"site": "%s:%d" % (f.file, line), "form": form, "types": sorted(str(a[1]) if len(a) > 1 else a[0] for a in tt)[:4]})
+            else:
+                ctx.violation("R9.5", key, "%s (form `%s`)" % (why, form), file=f.file, line=line)
+    ctx.count("truthiness_selections", n)
